@@ -93,6 +93,10 @@ type l1Worker struct {
 	nconn int
 	dir   string
 	stuck bool
+
+	lastStream []byte
+	curFile    *os.File
+	curLen     int
 }
 
 func (w *l1Worker) current(addr string) *delivery {
@@ -279,9 +283,27 @@ func (w *l1Worker) run(c *caseInfo) {
 	w.curMu.Lock()
 	w.cur = d
 	w.curMu.Unlock()
-	// the input is on disk before it reaches the pool
-	_ = ioutil.WriteFile(filepath.Join(w.dir, fmt.Sprintf("cur-%d.json", w.id)), mustJSON(map[string]interface{}{
-		"leg": c.Leg, "class": c.Class, "stream_hex": hex.EncodeToString(c.Stream), "chunk_sizes": chunkSizes(c.Chunks)}), 0644)
+	// the input is on disk before it reaches the pool: the stream when it changes, the chunking always
+	if len(c.Stream) > 0 && (len(w.lastStream) != len(c.Stream) || &w.lastStream[0] != &c.Stream[0]) {
+		w.lastStream = c.Stream
+		_ = ioutil.WriteFile(filepath.Join(w.dir, fmt.Sprintf("cur-%d-stream.json", w.id)), mustJSON(map[string]interface{}{
+			"leg": c.Leg, "stream_hex": hex.EncodeToString(c.Stream)}), 0644)
+	}
+	if w.curFile == nil {
+		w.curFile, _ = os.Create(filepath.Join(w.dir, fmt.Sprintf("cur-%d-chunks.json", w.id)))
+	}
+	if w.curFile != nil {
+		sizes := chunkSizes(c.Chunks)
+		if len(sizes) > 200 {
+			sizes = append(sizes[:200], -1)
+		}
+		line := mustJSON(map[string]interface{}{"leg": c.Leg, "class": c.Class, "chunk_sizes": sizes})
+		for len(line) < w.curLen {
+			line = append(line, ' ') // overwrite the previous, longer record completely
+		}
+		w.curLen = len(line)
+		_, _ = w.curFile.WriteAt(line, 0)
+	}
 
 	solicited := w.nconn%3 == 0
 	go func() {
@@ -299,7 +321,7 @@ func (w *l1Worker) run(c *caseInfo) {
 		d.mu.Unlock()
 	})
 	exp := c.Expect
-	bodyClass := exp.Outcome == outUnknownID || exp.Outcome == outMalformed || exp.Outcome == outUnderflow
+	bodyClass := exp.Outcome == outUnknownID || exp.Outcome == outMalformed || exp.Outcome == outUnderflow || exp.Outcome == outHandlerErr
 	stillOpenAtIdle := false
 	d.mu.Lock()
 	for !d.returned && !d.timedOut {
@@ -627,6 +649,9 @@ func hostileSpecs() []hostileSpec {
 	hs = append(hs, hostileSpec{"decode-panic:Panc", outMalformed, func(rng *rand.Rand) []byte {
 		return poolmsg.Frame(poolmsg.IDPanc, append([]byte{0xFF}, randBytes(rng, rng.Intn(3))...))
 	}})
+	hs = append(hs, hostileSpec{"handler-error:Fail", outHandlerErr, func(rng *rand.Rand) []byte {
+		return poolmsg.Frame(poolmsg.IDFail, u32(rng.Uint32()))
+	}})
 	for _, id := range []string{poolmsg.IDPing, poolmsg.IDFixed, poolmsg.IDBlob, poolmsg.IDList, poolmsg.IDFail, poolmsg.IDPanc} {
 		id := id
 		hs = append(hs, hostileSpec{"trailing-bytes:" + id, outUnderflow, func(rng *rand.Rand) []byte {
@@ -892,7 +917,7 @@ func runL1Child() {
 					stream = []byte{byte(rng.Intn(256))}
 				}
 				exp := refParse(stream, maxIncoming)
-				bodyClass := exp.Outcome == outUnknownID || exp.Outcome == outMalformed || exp.Outcome == outUnderflow
+				bodyClass := exp.Outcome == outUnknownID || exp.Outcome == outMalformed || exp.Outcome == outUnderflow || exp.Outcome == outHandlerErr
 				if bodyClass && !exp.LaterBadLength {
 					// make sure a valid frame follows the bad one (see run): append a sentinel and re-decide
 					stream = append(stream, poolmsg.Frame(poolmsg.IDPing, nil)...)
